@@ -325,8 +325,20 @@ class State:
                 best = c
         return best
 
+    def norm(self, v):
+        """replace a place term by the numeric alias stored for that place, if any"""
+        for _ in range(4):
+            if v[0] == "n" and v[1] is not None and v[1][0] == "v":
+                w = self.sym.get((v[1][1], v[1][2]))
+                if w is not None and w[0] == "n" and w[1] != v[1]:
+                    v = ("n", w[1], w[2] + v[2])
+                    continue
+            break
+        return v
+
     def prove_le(self, a, b, c=0):
         """values a, b ('n' or 'iv'):  a - b <= c ?"""
+        a, b = self.norm(a), self.norm(b)
         if a[0] == "n" and b[0] == "n":
             d = self.bound_diff(a[1], b[1])
             if d is not None and d + a[2] - b[2] <= c:
